@@ -304,201 +304,234 @@ func checkC11(c *Ctx) {
 				// It only does if the handler, after registering, waits on the Done() of the very context that function
 				// cancels: every blocking wait after the insert — here or in a helper the context is handed to — has
 				// such an arm.
-				// The cancelled context is identified by a predicate over values of the handler: the first result of the
-				// context.With* call whose second result is stored in the record — made by the handler itself, or by a
-				// constructor it hands the cancel function to — or, when a constructor derives the context itself, the
-				// context member of the record that constructor stores it in.
-				var isConnCtx func(v ssa.Value) bool
-				withCtxOf := func(cancel ssa.Value) (ssa.Value, bool) {
-					ex, ok := unspill(cancel).(*ssa.Extract)
-					if !ok || ex.Index != 1 {
-						return nil, false
-					}
-					wc, ok := ex.Tuple.(*ssa.Call)
-					if !ok || !strings.HasPrefix(ir.CallName(wc), "context.With") || wc.Referrers() == nil {
-						return nil, false
-					}
-					for _, r3 := range *wc.Referrers() {
-						if e0, ok := r3.(*ssa.Extract); ok && e0.Index == 0 {
-							return e0, true
+				var endsOnCancel func(holder *ssa.Function, rec ssa.Value, after ssa.Instruction, depth int)
+				endsOnCancel = func(holder *ssa.Function, rec ssa.Value, after ssa.Instruction, depth int) {
+					// The cancelled context is identified by a predicate over values of the handler: the first result of the
+					// context.With* call whose second result is stored in the record — made by the handler itself, or by a
+					// constructor it hands the cancel function to — or, when a constructor derives the context itself, the
+					// context member of the record that constructor stores it in.
+					var isConnCtx func(v ssa.Value) bool
+					withCtxOf := func(cancel ssa.Value) (ssa.Value, bool) {
+						ex, ok := unspill(cancel).(*ssa.Extract)
+						if !ok || ex.Index != 1 {
+							return nil, false
 						}
+						wc, ok := ex.Tuple.(*ssa.Call)
+						if !ok || !strings.HasPrefix(ir.CallName(wc), "context.With") || wc.Referrers() == nil {
+							return nil, false
+						}
+						for _, r3 := range *wc.Referrers() {
+							if e0, ok := r3.(*ssa.Extract); ok && e0.Index == 0 {
+								return e0, true
+							}
+						}
+						return nil, false
 					}
-					return nil, false
-				}
-				// stores into members of a freshly allocated record: member name -> stored value
-				memberStores := func(al *ssa.Alloc) map[string]ssa.Value {
-					out := map[string]ssa.Value{}
-					if al.Referrers() == nil {
+					// stores into members of a freshly allocated record: member name -> stored value
+					memberStores := func(al *ssa.Alloc) map[string]ssa.Value {
+						out := map[string]ssa.Value{}
+						if al.Referrers() == nil {
+							return out
+						}
+						for _, r := range *al.Referrers() {
+							fa, ok := r.(*ssa.FieldAddr)
+							if !ok || fa.Referrers() == nil {
+								continue
+							}
+							f, _, ok := ir.FieldOf(fa)
+							if !ok {
+								continue
+							}
+							for _, rr := range *fa.Referrers() {
+								if st, ok := rr.(*ssa.Store); ok && st.Addr == fa {
+									out[f.Name] = st.Val
+								}
+							}
+						}
 						return out
 					}
-					for _, r := range *al.Referrers() {
-						fa, ok := r.(*ssa.FieldAddr)
-						if !ok || fa.Referrers() == nil {
-							continue
-						}
-						f, _, ok := ir.FieldOf(fa)
-						if !ok {
-							continue
-						}
-						for _, rr := range *fa.Referrers() {
-							if st, ok := rr.(*ssa.Store); ok && st.Addr == fa {
-								out[f.Name] = st.Val
-							}
-						}
-					}
-					return out
-				}
-				cancelMember := func(al *ssa.Alloc) (ssa.Value, bool) {
-					if st, ok := al.Type().Underlying().(*types.Pointer).Elem().Underlying().(*types.Struct); ok {
-						ms := memberStores(al)
-						for i := 0; i < st.NumFields(); i++ {
-							if isCancelFunc(st.Field(i).Type()) {
-								v, ok := ms[st.Field(i).Name()]
-								return v, ok
-							}
-						}
-					}
-					return nil, false
-				}
-				undecided := ""
-				switch r := rec.(type) {
-				case *ssa.Alloc:
-					if cv, ok := cancelMember(r); ok {
-						if e0, ok := withCtxOf(cv); ok {
-							isConnCtx = func(v ssa.Value) bool { return unspill(v) == e0 }
-						} else {
-							undecided = "the cancel function stored in the record is not the result of a context.With* call of the handler"
-						}
-					}
-				case *ssa.Call:
-					k := ir.StaticCallee(r)
-					if k == nil || !c.P.IsLib(k) || k.Blocks == nil {
-						undecided = "the record comes from a call that cannot be resolved to a constructor of the library"
-						break
-					}
-					var results []ssa.Value
-					for _, b := range k.Blocks {
-						if ret, ok := b.Instrs[len(b.Instrs)-1].(*ssa.Return); ok && len(ret.Results) > 0 && b != k.Recover {
-							results = append(results, ir.Results(ret)[0])
-						}
-					}
-					for _, res := range results {
-						al, ok := ir.Unwrap(res).(*ssa.Alloc)
-						if !ok {
-							continue
-						}
-						cv, ok := cancelMember(al)
-						if !ok {
-							continue
-						}
-						if p, ok := unspill(cv).(*ssa.Parameter); ok {
-							for i, q := range k.Params {
-								if q == p && i < len(r.Call.Args) {
-									if e0, ok := withCtxOf(r.Call.Args[i]); ok {
-										isConnCtx = func(v ssa.Value) bool { return unspill(v) == e0 }
-									}
+					cancelMember := func(al *ssa.Alloc) (ssa.Value, bool) {
+						if st, ok := al.Type().Underlying().(*types.Pointer).Elem().Underlying().(*types.Struct); ok {
+							ms := memberStores(al)
+							for i := 0; i < st.NumFields(); i++ {
+								if isCancelFunc(st.Field(i).Type()) {
+									v, ok := ms[st.Field(i).Name()]
+									return v, ok
 								}
 							}
-						} else if e0, ok := withCtxOf(cv); ok {
-							// derived inside the constructor: reachable for the handler only through the member it is stored in
-							member := ""
-							for name, v := range memberStores(al) {
-								if unspill(v) == e0 {
-									member = name
-								}
-							}
-							if member != "" {
-								isConnCtx = func(v ssa.Value) bool {
-									f, base, ok := ir.LoadedField(unspill(v))
-									return ok && f.Name == member && sameValue(ir.Unwrap(base), rec)
-								}
+						}
+						return nil, false
+					}
+					undecided := ""
+					switch r := rec.(type) {
+					case *ssa.Alloc:
+						if cv, ok := cancelMember(r); ok {
+							if e0, ok := withCtxOf(cv); ok {
+								isConnCtx = func(v ssa.Value) bool { return unspill(v) == e0 }
 							} else {
-								isConnCtx = func(ssa.Value) bool { return false }
+								undecided = "the cancel function stored in the record is not the result of a context.With* call of the handler"
 							}
 						}
-					}
-					if isConnCtx == nil {
-						undecided = sprintf("the constructor %s does not store a cancel function that can be traced to a context.With* call", fname(k))
-					}
-				default:
-					undecided = "the registered record is neither allocated by the handler nor returned by a constructor"
-				}
-				if undecided != "" {
-					c.R.Violate("R-ends-on-cancel", "cancelled context of the record registered by "+fname(fn), c.Pos(ins.Pos),
-						sprintf("cannot identify the context that the cancel function of the record registered by %s cancels (%s): whether the handler ends when DELETE, a replacing stream or shutdown call that function is undecided", fname(fn), undecided))
-				}
-				if isConnCtx != nil {
-					doneOf := func(ch ssa.Value, is func(ssa.Value) bool) bool {
-						oc := originCall(ch)
-						return oc != nil && ir.CallName(oc) == "(context.Context).Done" && is(oc.Call.Value)
-					}
-					var waits func(f *ssa.Function, ctxv func(ssa.Value) bool, from ssa.Instruction, d int)
-					nWait := 0
-					waits = func(f *ssa.Function, ctxv func(ssa.Value) bool, from ssa.Instruction, d int) {
-						ir.EachInstr(f, func(_ *ssa.BasicBlock, _ int, in ssa.Instruction) {
-							if from != nil && !flow.Reaches(from, in) {
-								return
+					case *ssa.Call:
+						k := ir.StaticCallee(r)
+						if k == nil || !c.P.IsLib(k) || k.Blocks == nil {
+							undecided = "the record comes from a call that cannot be resolved to a constructor of the library"
+							break
+						}
+						var results []ssa.Value
+						for _, b := range k.Blocks {
+							if ret, ok := b.Instrs[len(b.Instrs)-1].(*ssa.Return); ok && len(ret.Results) > 0 && b != k.Recover {
+								results = append(results, ir.Results(ret)[0])
 							}
-							switch x := in.(type) {
-							case *ssa.UnOp:
-								if x.Op != token.ARROW {
-									return
-								}
-								nWait++
-								c.R.Check(ctxv != nil && doneOf(x.X, ctxv), "R-ends-on-cancel", sprintf("wait #%d after registering in %s", nWait, fname(f)), c.Pos(x.Pos()),
-									"waits for the context the record's cancel function cancels",
-									sprintf("%s, after the stream was registered by %s, blocks on something other than the Done() of the context that the registered cancel function cancels: DELETE, a replacing stream or shutdown call that function, and the stream stays open", fname(f), fname(fn)))
-							case *ssa.Select:
-								if !x.Blocking {
-									return
-								}
-								nWait++
-								has := false
-								for _, st := range x.States {
-									if ctxv != nil && doneOf(st.Chan, ctxv) {
-										has = true
+						}
+						for _, res := range results {
+							al, ok := ir.Unwrap(res).(*ssa.Alloc)
+							if !ok {
+								continue
+							}
+							cv, ok := cancelMember(al)
+							if !ok {
+								continue
+							}
+							if p, ok := unspill(cv).(*ssa.Parameter); ok {
+								for i, q := range k.Params {
+									if q == p && i < len(r.Call.Args) {
+										if e0, ok := withCtxOf(r.Call.Args[i]); ok {
+											isConnCtx = func(v ssa.Value) bool { return unspill(v) == e0 }
+										}
 									}
 								}
-								c.R.Check(has, "R-ends-on-cancel", sprintf("wait #%d after registering in %s", nWait, fname(f)), c.Pos(x.Pos()),
-									"has an arm on the context the record's cancel function cancels",
-									sprintf("%s, after the stream was registered by %s, waits in a select that has no arm on the Done() of the context that the registered cancel function cancels: DELETE, a replacing stream or shutdown call that function, and the stream stays open", fname(f), fname(fn)))
-							case *ssa.Call:
-								if d >= 1 {
-									return
-								}
-								sc := ir.StaticCallee(x)
-								if sc == nil || !c.P.IsLib(sc) || sc == f {
-									return
-								}
-								// only helpers that wait themselves (not senders: a write is bounded by the peer, not by us)
-								blocks := false
-								ir.EachInstr(sc, func(_ *ssa.BasicBlock, _ int, in2 ssa.Instruction) {
-									if u, ok := in2.(*ssa.UnOp); ok && u.Op == token.ARROW {
-										blocks = true
-									}
-									if sel, ok := in2.(*ssa.Select); ok && sel.Blocking {
-										blocks = true
-									}
-								})
-								if !blocks {
-									return
-								}
-								var inner ssa.Value
-								for i, a := range x.Call.Args {
-									if ctxv != nil && ctxv(a) && i < len(sc.Params) {
-										inner = sc.Params[i]
+							} else if e0, ok := withCtxOf(cv); ok {
+								// derived inside the constructor: reachable for the handler only through the member it is stored in
+								member := ""
+								for name, v := range memberStores(al) {
+									if unspill(v) == e0 {
+										member = name
 									}
 								}
-								if inner == nil {
-									waits(sc, nil, nil, d+1)
+								if member != "" {
+									isConnCtx = func(v ssa.Value) bool {
+										f, base, ok := ir.LoadedField(unspill(v))
+										return ok && f.Name == member && sameValue(ir.Unwrap(base), rec)
+									}
 								} else {
-									waits(sc, func(v ssa.Value) bool { return unspill(v) == inner }, nil, d+1)
+									isConnCtx = func(ssa.Value) bool { return false }
 								}
 							}
-						})
+						}
+						if isConnCtx == nil {
+							undecided = sprintf("the constructor %s does not store a cancel function that can be traced to a context.With* call", fname(k))
+						}
+					case *ssa.Parameter:
+						// the insert sits in a registering helper: the handler is whoever hands it the record
+						idx := -1
+						for i, q := range holder.Params {
+							if q == r {
+								idx = i
+							}
+						}
+						nc := 0
+						for _, e := range ir.Callers(c.G, holder) {
+							site, ok := e.Site.(*ssa.Call)
+							if !ok || !c.P.IsLib(e.Caller.Func) || idx < 0 || depth >= 2 {
+								continue
+							}
+							ai := idx
+							if site.Call.IsInvoke() {
+								ai--
+							}
+							if ai < 0 || ai >= len(site.Call.Args) {
+								continue
+							}
+							nc++
+							endsOnCancel(e.Caller.Func, ir.Unwrap(site.Call.Args[ai]), site, depth+1)
+						}
+						if nc == 0 {
+							undecided = "the record is a parameter of a function that no library function calls"
+						} else {
+							return
+						}
+					default:
+						undecided = "the registered record is neither allocated by the handler nor returned by a constructor"
 					}
-					waits(fn, isConnCtx, ins.Instr, 0)
+					if undecided != "" {
+						c.R.Violate("R-ends-on-cancel", "cancelled context of the record registered by "+fname(holder), c.Pos(ins.Pos),
+							sprintf("cannot identify the context that the cancel function of the record registered by %s cancels (%s): whether the handler ends when DELETE, a replacing stream or shutdown call that function is undecided", fname(holder), undecided))
+					}
+					if isConnCtx != nil {
+						doneOf := func(ch ssa.Value, is func(ssa.Value) bool) bool {
+							oc := originCall(ch)
+							return oc != nil && ir.CallName(oc) == "(context.Context).Done" && is(oc.Call.Value)
+						}
+						var waits func(f *ssa.Function, ctxv func(ssa.Value) bool, from ssa.Instruction, d int)
+						nWait := 0
+						waits = func(f *ssa.Function, ctxv func(ssa.Value) bool, from ssa.Instruction, d int) {
+							ir.EachInstr(f, func(_ *ssa.BasicBlock, _ int, in ssa.Instruction) {
+								if from != nil && !flow.Reaches(from, in) {
+									return
+								}
+								switch x := in.(type) {
+								case *ssa.UnOp:
+									if x.Op != token.ARROW {
+										return
+									}
+									nWait++
+									c.R.Check(ctxv != nil && doneOf(x.X, ctxv), "R-ends-on-cancel", sprintf("wait #%d after registering in %s", nWait, fname(f)), c.Pos(x.Pos()),
+										"waits for the context the record's cancel function cancels",
+										sprintf("%s, after the stream was registered by %s, blocks on something other than the Done() of the context that the registered cancel function cancels: DELETE, a replacing stream or shutdown call that function, and the stream stays open", fname(f), fname(holder)))
+								case *ssa.Select:
+									if !x.Blocking {
+										return
+									}
+									nWait++
+									has := false
+									for _, st := range x.States {
+										if ctxv != nil && doneOf(st.Chan, ctxv) {
+											has = true
+										}
+									}
+									c.R.Check(has, "R-ends-on-cancel", sprintf("wait #%d after registering in %s", nWait, fname(f)), c.Pos(x.Pos()),
+										"has an arm on the context the record's cancel function cancels",
+										sprintf("%s, after the stream was registered by %s, waits in a select that has no arm on the Done() of the context that the registered cancel function cancels: DELETE, a replacing stream or shutdown call that function, and the stream stays open", fname(f), fname(holder)))
+								case *ssa.Call:
+									if d >= 1 {
+										return
+									}
+									sc := ir.StaticCallee(x)
+									if sc == nil || !c.P.IsLib(sc) || sc == f {
+										return
+									}
+									// only helpers that wait themselves (not senders: a write is bounded by the peer, not by us)
+									blocks := false
+									ir.EachInstr(sc, func(_ *ssa.BasicBlock, _ int, in2 ssa.Instruction) {
+										if u, ok := in2.(*ssa.UnOp); ok && u.Op == token.ARROW {
+											blocks = true
+										}
+										if sel, ok := in2.(*ssa.Select); ok && sel.Blocking {
+											blocks = true
+										}
+									})
+									if !blocks {
+										return
+									}
+									var inner ssa.Value
+									for i, a := range x.Call.Args {
+										if ctxv != nil && ctxv(a) && i < len(sc.Params) {
+											inner = sc.Params[i]
+										}
+									}
+									if inner == nil {
+										waits(sc, nil, nil, d+1)
+									} else {
+										waits(sc, func(v ssa.Value) bool { return unspill(v) == inner }, nil, d+1)
+									}
+								}
+							})
+						}
+						waits(holder, isConnCtx, after, 0)
+					}
 				}
+				endsOnCancel(fn, rec, ins.Instr, 0)
 				// self tear-down deletes
 				for _, del := range fi.deletes {
 					nSelf++
